@@ -434,7 +434,8 @@ def w_rec(rep, ex: Explorer, be: Backend):
 def _k_is_zero(K0):
     key, val = K0
     lin = key[2][1]
-    for kv in (0, 1, 2):
+    from .. import depth
+    for kv in depth.card_range():
         x = sum(c * kv for t, c in lin[0]) + lin[1]
         holds = (x == 0) if key[1] == "==" else (x < 0)
         if holds == val:
@@ -485,8 +486,14 @@ _SETS = [frozenset(), frozenset({1}), frozenset({2}), frozenset({1, 2})]
 
 
 def _families():
-    for mask in range(16):
-        yield [s for i, s in enumerate(_SETS) if mask >> i & 1]
+    """All families of subsets of the universe (quick: {1,2}, 16 families; thorough: {1,2,3}, 256 families)."""
+    from itertools import combinations
+    from .. import depth
+
+    u = depth.universe()
+    sets = [frozenset(c) for r in range(len(u) + 1) for c in combinations(u, r)]
+    for mask in range(1 << len(sets)):
+        yield [s for i, s in enumerate(sets) if mask >> i & 1]
 
 
 def eval_setpred(p, fams, env):
@@ -763,7 +770,8 @@ def lex_rec(rep, ex: Explorer, be: Backend):
                 return (x == 0) if pr[1] == "==" else (x < 0)
             return None
 
-        for EV, EF, mv, mf in product((True, False), (True, False), range(3), range(3)):
+        from .. import depth
+        for EV, EF, mv, mf in product((True, False), (True, False), depth.card_range(), depth.card_range()):
             out = out0
             if pr_out is not None:
                 out = eval_out(pr_out, EV, EF, mv, mf)
